@@ -26,6 +26,31 @@ CLAIMED = {
                 "other built-ins that re-wrap errors are outside the "
                 "generated grammar.",
     },
+    "C11": {
+        "ref": "DESIGN.md §4.4",
+        "technique": "deterministic simulation: generated module graphs on "
+                     "a simulated module store, importer sessions with read "
+                     "faults, namespace model + load ledger",
+        "text": "Seeded search over generated module graphs (<= 5 user "
+                "modules with public/private definitions, mutable module "
+                "state, LOAD marks, dependencies in every import form, "
+                "optional cycles, top-level failures and importer probes) "
+                "placed on a simulated module store (home directory, 1-2 "
+                "module-path directories with shadowing), driven by importer "
+                "sessions that use every require form in seeded order and "
+                "repetition (top level, inside functions, inside modules, "
+                "identifier/string/string-variable specs) under open/read "
+                "faults and torn reads. After every command ls() is compared "
+                "with the namespace model (must / must-not / may), stdout "
+                "LOAD marks with the load ledger, and values with the shared-"
+                "instance model. Evidence, not proof.",
+        "note": "Trusted: the namespace/load model in simckl/lang.py, the "
+                "module-attribute seams of ckl.nodes (open, os, pkgutil). "
+                "Names a module obtained through its own imports may or may "
+                "not be re-exported (ignored). Bundled modules and their "
+                "case-insensitive file lookup are not part of the generated "
+                "graphs.",
+    },
     "C10": {
         "ref": "DESIGN.md §4.3",
         "technique": "deterministic simulation: seeded session histories "
@@ -54,7 +79,6 @@ CLAIMED = {
 
 PENDING = {
     "C09": "claimed in DESIGN.md §4.2; check not built yet",
-    "C11": "claimed in DESIGN.md §4.4; check not built yet",
     "C12": "claimed in DESIGN.md §4.5; check not built yet",
     "C13": "claimed (OS-facing slice) in DESIGN.md §4.6; check not built yet",
 }
